@@ -28,6 +28,10 @@
 (*                  or a second sub-goal option on the same base) and RequeryFirst: the    *)
 (*                  first derived MDP, still alive, is read only now and must answer from  *)
 (*                  its own components                                                    *)
+(*                  In plan mode Reconfigure may come first: the option was read (sub_task   *)
+(*                  arrays, planning_result) under an earlier configuration M.pre and then  *)
+(*                  reconfigured (clip, include_mdp_absorbing_states, initiation set, grown   *)
+(*                  sub-goal list); the sub-task describes the option as it is now           *)
 (*     sub-task:    the same machine with ovr = {initial, reward, absorbing} and the     *)
 (*                  option's overrides, followed by PlanStep (planner = exact oracle)    *)
 (*     Option.run_on / Policy.run_on: OptStep (one loop iteration: action, successor,   *)
@@ -221,7 +225,7 @@ InitAug ==
 InitPlan ==
   /\ Mode = "plan" /\ InitCommon
   /\ ovr = {"initial", "reward", "absorbing"}
-  /\ pc = (IF Batch[iid].warm = "none" THEN "class" ELSE "warm") /\ d = Blank
+  /\ pc = (IF Batch[iid].warm # "none" THEN "warm" ELSE IF Batch[iid].reconf = 1 THEN "reconf" ELSE "class") /\ d = Blank
   /\ cur = 0 /\ nst = 0 /\ cum = Zero
 InitOpt ==
   /\ Mode = "opt" /\ InitCommon
@@ -249,8 +253,15 @@ NextComp(m, c) ==
 \* call history: the base's arrays / reachable set were read, or it was planned on, before augment():
 \* its views are now cached on the base instance
 WarmBase ==
-  /\ Mode \in {"aug", "plan"} /\ pc = "warm" /\ pc' = "class"
-  /\ tally' = <<Views(M, Derived(M, {}))>>
+  /\ Mode \in {"aug", "plan"} /\ pc = "warm"
+  /\ pc' = (IF Mode = "plan" /\ M.reconf = 1 THEN "reconf" ELSE "class")
+  /\ tally' = Append(tally, <<"base", Views(M, Derived(M, {}))>>)
+  /\ UNCHANGED <<iid, ovr, d, opt, cur, nst, cum, hist, j, l, fail>>
+\* call history (plan mode): the option was read under its earlier configuration M.pre - its sub-task's
+\* views were computed (and possibly cached) then - and is reconfigured to M's before being read again
+Reconfigure ==
+  /\ Mode = "plan" /\ pc = "reconf" /\ pc' = "class"
+  /\ tally' = Append(tally, <<"pre", Views(M.pre, Derived(M.pre, ovr))>>)
   /\ UNCHANGED <<iid, ovr, d, opt, cur, nst, cum, hist, j, l, fail>>
 \* class AugmentedMDP(mdp.__class__) with an empty __init__: the point where the discount is fixed
 AugClass ==
@@ -350,7 +361,7 @@ TrFinish ==
           /\ UNCHANGED <<iid, ovr, d, opt, cur, nst, cum, hist, j, l, tally, fail>>
      ELSE Reject(IF M.outcome = "dist" THEN "wrong-number-of-simulations" ELSE "raised-without-raising-run")
 
-Next == RunElsewhere \/ WarmBase \/ DeriveAnother \/ RequeryFirst \/ AugClass \/ AugSet \/ AugInstantiate \/ PlanStep \/ OptStep \/ OptBreak \/ OptCheck
+Next == RunElsewhere \/ WarmBase \/ Reconfigure \/ DeriveAnother \/ RequeryFirst \/ AugClass \/ AugSet \/ AugInstantiate \/ PlanStep \/ OptStep \/ OptBreak \/ OptCheck
         \/ TrStep \/ TrEnd \/ TrFinish
 Spec == Init /\ [][Next]_vars
 
@@ -359,11 +370,11 @@ Emit ==
   CASE Mode = "aug" /\ pc = "requeried" ->
          PrintT(ToJson([kind |-> "aug", iid |-> iid, ovr |-> ovr, d |-> d,
                         eff |-> Eff(M), views |-> Views(M, d), d2 |-> hist[1],
-                        cachediffers |-> (tally # <<>> /\ tally[1] # Views(M, d))]))
+                        cachediffers |-> (\E x \in Range(tally) : x[2] # Views(M, d))]))
     [] Mode = "plan" /\ pc = "planned" ->
          PrintT(ToJson([kind |-> "plan", iid |-> iid, d |-> d, judge |-> opt.judge, v |-> opt.v, q |-> opt.q,
                         nmax |-> opt.nmax, implabs |-> opt.implabs, views |-> Views(M, d), d2 |-> hist[1],
-                        cachediffers |-> (tally # <<>> /\ tally[1] # Views(M, d))]))
+                        cachediffers |-> (\E x \in Range(tally) : x[2] # Views(M, d))]))
     [] Mode = "opt" /\ pc \in {"returned", "raised"} ->
          PrintT(ToJson([kind |-> "opt", iid |-> iid, s0 |-> IF hist = <<>> THEN cur ELSE hist[1][1],
                         hist |-> hist, end |-> cur, nst |-> nst, status |-> pc, cum |-> cum,
@@ -399,7 +410,8 @@ ViewsOfDerived ==
      /\ \A s \in St(M) : d.absorbing[s] = 1 => v.absvec[s] = 1
      /\ InitSupp(inst) \subseteq v.reach
      /\ \A s \in v.reach \ ExplAbs(inst) : Edges(inst, s) \subseteq v.reach
-     /\ (tally # <<>> => tally[1] = Views(M, Derived(M, {})))
+     /\ \A x \in Range(tally) : x[2] = (IF x[1] = "base" THEN Views(M, Derived(M, {}))
+                                                      ELSE Views(M.pre, Derived(M.pre, ovr)))
 \* two derived MDPs alive at once: each answers from its own components, whatever was derived later
 DerivedIsolated ==
   (Mode \in {"aug", "plan"} /\ pc \in {"again", "requeried", "planned"}) =>
@@ -410,7 +422,7 @@ DerivedIsolated ==
 AugOrder ==
   (Mode \in {"aug", "plan"}) =>
      /\ (M.tab = 0 => d.state_list = Unset /\ d.action_list = Unset)
-     /\ (pc \in {"warm", "class"} => d = Blank)
+     /\ (pc \in {"warm", "reconf", "class"} => d = Blank)
      /\ (pc = "warm" => tally = <<>>)
 \* --- sub-goal sub-task: base discount, base dynamics, rewards clipped only off the sub-goals,
 \*     absorbing exactly at the sub-goals (and the base's absorbing states when asked), uniform start
